@@ -18,7 +18,7 @@ static META: [PropertyMeta; 8] = [
         id: "C01",
         level: "exploration",
         engine: "memo-sim",
-        rule: "a run = 1-3 worlds (OS threads with seeded stack sizes, released one at a time) and 3-6 cooperative tasks whose stages are single public API calls (T::ty, IDLBuilder::new/default, arg, serialize/serialize_to_vec, Encode!/encode_one, IDLDeserialize::new_with_config, get_value, done, Decode!/decode_one, try_from_candid_type, TypeContainer::add, subtype on knot types, env_clear) over a corpus of ~530 concrete Rust types (cross product of element/key/value types under every container, derived, generic, renamed, recursive and mutually recursive types), interleaved by a seeded scheduler (sequential, uniform, bursty, alternating) with injected history events: env_clear at arbitrary instants, arguments that fail mid-value, decodes that fail mid-value (truncated message, quota abort, wrong type), abandoned builders/decoders, writer faults. Every task is also executed alone on a fresh thread as the reference. distinct = distinct (fingerprint of the thread memo before the call over 12 tracked recursive/derived types, API call kind, corpus type). non-trivial = at least two tasks shared a thread.",
+        rule: "a run = 1-3 worlds (OS threads with seeded stack sizes, released one at a time) and 3-6 cooperative tasks whose stages are single public API calls (T::ty, IDLBuilder::new/default, arg, serialize/serialize_to_vec, Encode!/encode_one, IDLDeserialize::new_with_config, get_value, done, Decode!/decode_one, try_from_candid_type, TypeContainer::add, subtype on knot types, env_clear) over a corpus of ~430 concrete Rust types (cross product of element/key/value types under every container, derived, generic, renamed, recursive and mutually recursive types, two different local types with the same std::any::type_name), interleaved by a seeded scheduler (sequential, uniform, bursty, alternating) with injected history events: env_clear at arbitrary instants, arguments that fail mid-value, decodes that fail mid-value (truncated message, quota abort, wrong type), abandoned builders/decoders, writer faults. Every task is also executed alone on a fresh thread as the reference. distinct = distinct (fingerprint of the thread memo before the call over 12 tracked recursive/derived types, API call kind, corpus type). non-trivial = at least two tasks shared a thread.",
         assumptions: &[
             "'whatever ran before' = earlier completed or failed API calls of any task on the thread, and env_clear (public); re-entrancy from inside user Deserialize impls is not generated",
             "bytes are not required to be equal across different histories (the source documents that memo order may change the table layout), only outcomes and decoded values",
@@ -32,7 +32,7 @@ static META: [PropertyMeta; 8] = [
         id: "C03",
         level: "exploration",
         engine: "memo-sim + writer seam",
-        rule: "same worlds, tasks and histories as C01, plus typed-untyped tasks (value_arg_with_type, IDLArgs::to_bytes_with_types over generated (environment, type, value) triples incl. recursive definitions and primitive aliases); every byte string for which the real API returned Ok is parsed by the reference wire decoder RD (written from the spec) and compared with the harness-side type (bisimulation) and abstract value; serialize runs against SimWriter fault plans, is retried after writer errors and repeated on the same builder; one-shot encodes run twice back to back. distinct = distinct (memo fingerprint, API call kind, corpus type). non-trivial = at least two tasks shared a thread.",
+        rule: "same worlds, tasks and histories as C01, plus typed-untyped tasks (value_arg_with_type, IDLArgs::to_bytes_with_types over generated (environment, type, value) triples incl. recursive definitions and primitive aliases, a third of them handed over in a looser spelling that the re-annotation accepts: nat value or bare number literal at int, null/reserved for an absent option, anything at reserved, float64 at float32, omitted null/opt/reserved fields, fields in any order); every byte string for which the real API returned Ok is parsed by the reference wire decoder RD (written from the spec) and compared with the harness-side type (bisimulation) and abstract value; serialize runs against SimWriter fault plans, is retried after writer errors and repeated on the same builder; one-shot encodes run twice back to back. distinct = distinct (memo fingerprint, API call kind, corpus type). non-trivial = at least two tasks shared a thread.",
         assumptions: &[
             "models/rd.rs is the definition of the binary grammar (strict: composite-only table, ascending ids/names, <=1 annotation, indices in range, canonical bool/opt tags, nothing left over)",
             "corpus types carry hand-written sim_type()/av() that do not go through CandidType::_ty() or idl_serialize",
@@ -46,11 +46,11 @@ static META: [PropertyMeta; 8] = [
         id: "C04",
         level: "exploration",
         engine: "wire-sim",
-        rule: "a run = one generated environment, one service lineage of up to 7 candidate versions produced by random upgrade steps (add/drop optional field, add required field in results, add/drop variant case under opt, int->nat in results, nat->int / wrap in opt / to reserved in arguments, function/service reference signatures, append optional argument/result, add method, deliberately unrelated rewrites), each deployed only if the real checker accepts it (type-level subtype, or service_compatible on harness-printed text), 1-4 clients pinned to the version current when they joined, 2-10 calls and their replies travelling with seeded delays on a discrete-event network (so that they are delivered after later upgrades), duplicated calls, relays holding an intermediate version, plus 2-8 native pairings (value of Rust type S decoded at Rust type R when the checker accepts S <: R, host-limited receivers excluded). distinct = distinct (multiset of upgrade-step kinds between sender and receiver version, direction/method) and distinct native (sender, receiver) pairs. non-trivial = a message was delivered across at least one upgrade, or a native pairing of two different types was accepted.",
+        rule: "a run = one generated environment, one service lineage of up to 7 candidate versions produced by random upgrade steps (add/drop optional field, add required field in results, add/drop variant case under opt, int->nat in results, nat->int / wrap in opt / to reserved in arguments, function/service reference signatures, append optional argument/result, add method, deliberately unrelated rewrites), each deployed only if the real checker accepts it (type-level subtype, or service_compatible on harness-printed text), 1-4 clients pinned to the version current when they joined, 2-10 calls and their replies travelling with seeded delays on a discrete-event network (so that they are delivered after later upgrades), duplicated calls, relays holding an intermediate version, plus 2-8 native pairings (value of Rust type S decoded at Rust type R when the checker accepts S <: R; the decoded Rust value must be the sent value seen at R's type; host-limited receivers excluded, 128-bit receivers get senders whose numbers stay below 2^120). distinct = distinct (multiset of upgrade-step kinds between sender and receiver version, direction/method) and distinct native (sender, receiver) pairs. non-trivial = a message was delivered across at least one upgrade, or a native pairing of two different types was accepted.",
         assumptions: &[
             "decode success is demanded only for (sender type, receiver type) pairs the real checker accepts directly at delivery time; pairs several upgrades apart that it does not accept are counted, not judged (transitivity is C05)",
-            "the oracle is deliberately weak: decoding succeeds, the result is of the receiver's type (own typing judgement), relayed values are coherent per the spec's ~ relation; equality with spec coercion would be C02",
-            "native receivers with host limits (u128/i128, [T;N], BoundedVec, Duration, PathBuf) only receive from the same Rust type",
+            "the oracle is deliberately weak: decoding succeeds, the result is of the receiver's type (own typing judgement), relayed values are coherent per the spec's ~ relation; for native receivers the result is compared with the sent value field by field (models::stype::coerced: exact except that any option may have become absent and that host sets/maps may reorder/deduplicate); full equality with spec coercion would be C02",
+            "native receivers with host limits ([T;N], ByteArray<N>, BoundedVec, Duration, PathBuf; u128/i128 unless the sender is a SmallNat/SmallInt type) only receive from the same Rust type",
             "values are generated by the harness as inhabitants of the sender's type and encoded by the real typed-untyped encoder",
         ],
         real_components: &["candid::types::subtype (the deployment gate)", "candid_parser::utils::service_compatible + parser + type checker (text gate)", "candid::de via IDLArgs::from_bytes_with_types and native decode_one", "candid::ser via to_bytes_with_types / encode_one"],
@@ -60,7 +60,7 @@ static META: [PropertyMeta; 8] = [
         id: "C05",
         level: "exploration",
         engine: "gamma-sim",
-        rule: "a run = one generated environment (1-6 definitions plus a mutated twin of each, recursive and mutually recursive, all constructors, references) under a seeded renaming of definitions, 1-3 caller-held memos, and a seeded history of 3-14 queries over the entry points subtype / subtype_with_config(Silence) / subtype_check_all / equal, plus text-level service_compatible / service_compatibility_report / service_equal on harness-printed programs with permuted definition, field and method order; enumerated family: for small environments (2 definitions, 49 bodies each) every history of two queries over 36 type pairs on one memo. distinct = distinct (canonical hash of memo contents before the query, entry point, query pair); enumerated histories are distinct by construction. non-trivial = the query ran on a memo that already held assumptions from earlier successful queries.",
+        rule: "a run = one generated environment (1-6 definitions plus a mutated twin of each, recursive and mutually recursive, all constructors, references) under a seeded renaming of definitions, 1-3 caller-held memos, and a seeded history of 3-14 queries (random pairs, a type against its mutated twin, a record minus one field, every axiom of the relation and its converse under vec/record/variant/func contexts) over the entry points subtype / subtype_with_config(Silence) / subtype_check_all / equal, plus text-level service_compatible / service_compatibility_report / service_equal on harness-printed programs with permuted definition, field and method order; enumerated family: for small environments (2 definitions, 49 bodies each) every history of two queries over 36 type pairs on one memo. distinct = distinct (canonical hash of memo contents before the query, entry point, query pair); enumerated histories are distinct by construction. non-trivial = the query ran on a memo that already held assumptions from earlier successful queries.",
         assumptions: &[
             "models/gfp.rs (greatest fixed point of the rules of spec/Candid.md §Rules over reachable pairs, unit-tested) is the definition of the relation; the four opt rules together make every type a subtype of every option type",
             "a memo that has seen a failed top-level query is retired (the statement promises independence from earlier successful checks and from internal probes only)",
@@ -74,7 +74,7 @@ static META: [PropertyMeta; 8] = [
         id: "C06",
         level: "exploration",
         engine: "wire-sim (hostile mode)",
-        rule: "a run = one delivery: (a) an honest in-flight message (corpus value or generated typed-untyped value, half of the generated types with labels a .did author may legally quote: commas, quotes, empty, non-ASCII, numeric-looking) damaged by 0-3 channel faults (truncate, bit flip, boundary-byte substitution, span delete/duplicate, splice with another in-flight message, inflate a LEB128 length, insert bytes) or (b) a Byzantine construction (opt/vec chains up to depth 10000 with values nested up to 50000, self-referential records/variants, vectors of zero-sized elements with counts up to 2^63, table length 9999/10000/10001/2^32, argument/field counts 2^32, bad/unsorted/duplicate ids and method names, annotations, future opcodes with lengths up to 2^63, bad indices, LEB128 padding, lengths beyond the input, reference flags/lengths, bad tags); receiver = native corpus type, generated untyped types, from_bytes without type, or done() only; knobs per run: thread stack 64 KiB-8 MiB, decoding quota none/0/1-50/1000/100000, skipping quota likewise, max_type_len, full error messages on/off. distinct = distinct (receiver, message kind, outcome class, error prefix). non-trivial = the message is not an undamaged honest message.",
+        rule: "a run = one delivery: (a) an honest in-flight message (corpus value or generated typed-untyped value, half of the generated types with labels a .did author may legally quote: commas, quotes, empty, non-ASCII, numeric-looking) damaged by 0-3 channel faults (truncate, bit flip, boundary-byte substitution, span delete/duplicate, splice with another in-flight message, inflate a LEB128 length, insert bytes) or (b) a Byzantine construction (opt/vec chains up to depth 10000 with values nested up to 50000, self-referential records/variants, vectors of zero-sized elements with counts up to 2^63, table length 9999/10000/10001/2^32, argument/field counts 2^32, bad/unsorted/duplicate ids and method names, annotations, future opcodes with lengths up to 2^63, bad indices, LEB128 padding, lengths beyond the input, reference flags/lengths, bad tags, fixed-width primitive vectors with lengths around 2^64/size at the exactly matching native receiver, type T = opt T / vec T with values nested 65534-70000 levels received on a 2 GiB thread stack); receiver = native corpus type, generated untyped types, from_bytes without type, or done() only; knobs per run: thread stack 64 KiB-8 MiB (2 GiB for the deep-nesting family), decoding quota none/0/1-50/1000/100000, skipping quota likewise, max_type_len, full error messages on/off. distinct = distinct (receiver, message kind, outcome class, error prefix). non-trivial = the message is not an undamaged honest message.",
         assumptions: &[
             "a worker process that dies (SIGSEGV from stack overflow, SIGABRT from abort or a refused >2 GiB allocation) is identified by its journal and reported as a violation; a wall-clock watchdog backs this up",
             "work is counted by the tick hook (element/entry loops of the decoder, deserialize_any, subtype_); with a decoding quota q: ticks <= 16 q + 64 len + 20000 and live heap <= 64 MiB + 2 MiB len + 256 KiB q — constants at least 8x the largest ratios measured on the unchanged tree (recorded under measured_maxima) and 8x serde's cautious 1 MiB pre-allocation per in-progress container, because the statement fixes no constants",
@@ -115,7 +115,7 @@ static META: [PropertyMeta; 8] = [
         id: "C20",
         level: "fault_enumeration",
         engine: "entropy-sim",
-        rule: "a run = one generated environment (0-5 definitions, recursive, with planted hard cases: uninhabited `record {L}`, variant whose first case is recursive, rose tree; `empty` and `reserved` allowed), 1-3 requested types, one generator configuration drawn from a swarm (depth -1..30, size -5..1000, width 0..40, ranges incl. inverted and out-of-type ones, every text kind incl. an unknown one, per-path overrides incl. configured `value` lists that do or do not fit), and one entropy buffer of 0-256 bytes (random, all-00, all-FF, period 3); the fault 'entropy runs dry after k bytes' is enumerated over every prefix k = 0..n. Every returned argument list is judged by the harness's own typing judgement, annotate_type and to_bytes_with_types. distinct = distinct (requested type, size of the generated value). non-trivial = the generator returned values at least once.",
+        rule: "a run = one generated environment (0-5 definitions, recursive, with planted hard cases: uninhabited `record {L}`, variant whose first case is recursive, rose tree; planted depth families T/L/W/VT with a known nesting bound, VT recursing through a vector of a named type; `empty` and `reserved` allowed), 1-3 requested types, one generator configuration drawn from a swarm (depth -1..30 — 30 only where the recursion cannot branch, 12 otherwise —, size -5..1000, width 0..40, ranges incl. inverted and out-of-type ones, every text kind incl. an unknown one, per-path overrides incl. configured `value` lists that do or do not fit), and one entropy buffer of 0-256 bytes (random, all-00, all-FF, period 3); the fault 'entropy runs dry after k bytes' is enumerated over every prefix k = 0..n. Every returned argument list is judged by the harness's own typing judgement, annotate_type and to_bytes_with_types. distinct = distinct (requested type, size of the generated value). non-trivial = the generator returned values at least once.",
         assumptions: &[
             "termination is judged by 'returns' (wall-clock watchdog as backstop), not by a size formula",
             "a configuration TOML the config parser rejects is counted, not judged",
